@@ -155,11 +155,26 @@ def image_classes():
             'ana': nib.AnalyzeImage}
 
 
-def make_img(cls, shape, A, dim=None):
+def make_img(cls, shape, A, dim=None, proxy=False):
+    """image with data = arange(size); proxy=True: written to in-memory files and loaded back, so that
+    dataobj is an ArrayProxy and img.slicer / as_reoriented go through fileslice.py"""
     data = np.arange(int(np.prod(shape)), dtype=np.int32).reshape(shape)
-    img = image_classes()[cls](data, A)
+    klass = image_classes()[cls]
+    img = klass(data, A)
     if dim is not None and cls in ('n1', 'n2', 'p1'):
         img.header.set_dim_info(*dim)
+    if proxy:
+        import io
+        from nibabel.fileholders import FileHolder
+        fm = klass.make_file_map()
+        for k in fm:
+            fm[k] = FileHolder(fileobj=io.BytesIO())
+        if len(fm) == 1 or cls in ('n1', 'n2'):
+            fm = {k: FileHolder(fileobj=io.BytesIO()) for k in fm}
+        img.to_file_map(fm)
+        img = klass.from_file_map(fm)
+        if isinstance(img.dataobj, np.ndarray) or not np.array_equal(np.asarray(img.dataobj), data):
+            raise RuntimeError('proxy image construction failed')
     return img, data
 
 
@@ -238,10 +253,17 @@ def run(chk: Check):
                 'a dominant-axis margin (integer, mildly oblique, strongly sheared with off-axis components up to 1.1 and '
                 'anisotropic voxels), each also under a SCALE SWEEP of the voxel sizes (uniform and per-axis anisotropic, '
                 's in {1e-6,1e-4,1e-3,1,1e3,1e6}): io_orientation must not change, canonical twice = once; general (q,p) '
-                'affines with dropped axes. Non-trivial: a non-identity orientation '
+                'affines with dropped axes and NEAR-TIE rotations (45 degrees +- 0..1e-6) decided on the exact computed R; '
+                '(S4) realistic axis lengths (20-40) where fileslice switches read strategy; about 40% of all slicer / sequence / '
+                'reorientation images are FILE-BACKED (ArrayProxy over in-memory files, so slicing goes through fileslice.py); '
+                '(Q) random sequences of 2-4 slicer / as_reoriented calls in any order; (L) axis codes with custom label '
+                'tables (word labels, 2 and 4 pairs, duplicated codes, dropped rows, bad directions); (E) orientations of 1, 2 '
+                'and 4 axes through apply_orientation / inv_ornt_aff / ornt_transform and their refusals, flip_axis; (F) '
+                'four_to_three, squeeze_image, concat_images(four_to_three), as_closest_canonical(enforce_diag=True). '
+                'Non-trivial: a non-identity orientation '
                 'or an index that is not the whole array, not refused; distinct by (op, shape, orientation/index, affine, class)')
-    chk.assumptions = ['images are in-memory (dataobj is an ndarray) with data = arange(size): the value of a voxel names its '
-                       'source voxel, so value equality is checked at every voxel of every result',
+    chk.assumptions = ['images carry data = arange(size) (int32, unscaled), in memory or file-backed through in-memory files: the '
+                       'value of a voxel names its source voxel, so value equality is checked at every voxel of every result',
                        'affines are integer-valued float64 matrices, so world positions are compared exactly',
                        'numpy.linalg.svd inside io_orientation is an oracle: the harness recomputes R with the same '
                        'expressions and feeds it (scaled exactly to integers) to the model of the loop']
@@ -295,7 +317,7 @@ def run(chk: Check):
                 dim = tuple(rng.sample([0, 1, 2], 3)) if rng.random() < 0.6 else \
                     tuple(rng.choice([None, 0, 1, 2]) for _ in range(3))
             nifti = cls in ('n1', 'n2', 'p1')
-            img, data = make_img(cls, shape, A, dim)
+            img, data = make_img(cls, shape, A, dim, proxy=(nifti and (oi + si) % 4 == 0))
             oarg = o.astype(float) if (oi + si) % 2 else o
             case = {'op': 'as_reoriented', 'cls': cls, 'shape': list(shape), 'ornt': ornt2s(o), 'affine': mat2s(A),
                     'dim_info': list(dim) if nifti else None}
@@ -324,15 +346,21 @@ def run(chk: Check):
     # ============================================================== (S) slicer
     img_cache = {}
 
-    def slicer_case(tag, shape, ix, A, cls='n1', sample=False):
-        ck = (cls, shape, A.tobytes())      # the slicer never modifies its image: reuse it
+    def slicer_case(tag, shape, ix, A, cls='n1', sample=False, proxy=False, dim=None):
+        nifti = cls in ('n1', 'n2', 'p1')
+        proxy = proxy and nifti                 # Analyze files cannot hold an arbitrary affine
+        dim = dim if nifti else None
+        ck = (cls, shape, A.tobytes(), proxy, dim)      # the slicer never modifies its image: reuse it
         if ck not in img_cache:
             if len(img_cache) > 400:
                 img_cache.clear()
-            img_cache[ck] = make_img(cls, shape, A)
+            img_cache[ck] = make_img(cls, shape, A, dim, proxy)
         img, data = img_cache[ck]
+        if proxy and not np.array_equal(img.affine, A):
+            raise RuntimeError('affine changed by the file round trip')
         ixs = ix2s(ix)
-        case = {'op': 'slicer', 'cls': cls, 'shape': list(shape), 'ix': ixs, 'affine': mat2s(A)}
+        case = {'op': 'slicer', 'cls': cls, 'shape': list(shape), 'ix': ixs, 'affine': mat2s(A), 'proxy': proxy,
+                'dim_info': list(dim) if dim else None}
         pred = None
         try:
             want = data[ix]
@@ -341,11 +369,14 @@ def run(chk: Check):
         try:
             new = img.slicer[ix]
             out = np.asarray(new.dataobj)
-            exp = f'ok shape={lst(new.shape)} aff={affs(new.affine)} srcs={lst(out.ravel())}'
+            ndim_info = new.header.get_dim_info() if nifti else ()
+            exp = f'ok shape={lst(new.shape)} aff={affs(new.affine)} dim={opts2s(ndim_info)} srcs={lst(out.ravel())}'
             if want is None or out.shape != want.shape or not np.array_equal(out, want):
                 pred = 'sliced image data differ from data[index]'
             else:
                 pred, S, J = world_check(new, img.affine, img.shape)
+            if nifti and ndim_info != img.header.get_dim_info():
+                pred = pred or f'slicing changed dim_info {img.header.get_dim_info()} -> {ndim_info} (spatial axes stay in place)'
         except Exception as e:
             new = None
             exp = err_enum(e)
@@ -358,10 +389,12 @@ def run(chk: Check):
             pred = pred or 'slice_affine(index) differs from the affine of slicer[index]'
         nontriv = new is not None and np.asarray(new.dataobj).size < data.size or \
             (new is not None and not np.array_equal(np.asarray(new.dataobj), data))
-        chk.count(key=('S', shape, ixs, mat2s(A)) if nontriv else None, tag=tag + (':ok' if new is not None else ':refused'),
+        chk.count(key=('S', shape, ixs, mat2s(A), proxy) if nontriv else None, tag=tag + (':ok' if new is not None else ':refused'),
                   sample=case if sample else None)
+        if proxy:
+            chk.tagc('S:file-backed(ArrayProxy)')
         n = len(expect)
-        add(f'S{n}.g', f'slicer {lst(shape)} {ixs} {mat2s(A)}', exp, case, pred)
+        add(f'S{n}.g', f'slicer {lst(shape)} {ixs} {mat2s(A)} {opts2s(img.header.get_dim_info()) if nifti else "()"}', exp, case, pred)
         add(f'S{n}.a', f'slaff {lst(shape)} {ixs} {mat2s(A)}', e_aff, case, pred)
         if new is not None:
             add(f'S{n}.h', f'hyp {lst(shape)} {ixs}', 'ok 1', case, pred)
@@ -380,7 +413,8 @@ def run(chk: Check):
             A = FIXED_AFFS[(ax + n) % 3]
             for si, s in enumerate(slices_for(n) + [slice(None, None, 0), slice(1, 3, 0)]):
                 ix = (slice(None),) * ax + (s,)
-                slicer_case('S1:one-axis', shape, ix, A, cls='n1' if si % 5 else 'spm', sample=(ax == 1 and n == 4 and si == 777))
+                slicer_case('S1:one-axis', shape, ix, A, cls='n1' if si % 5 else 'spm', sample=(ax == 1 and n == 4 and si == 777),
+                            proxy=(si % 3 == 1), dim=(2, 0, 1) if si % 2 else (None, 1, 0))
     # (S2) pairs of representative slices on two spatial axes
     reps = {}
     for n in (2, 3, 4):
@@ -398,7 +432,7 @@ def run(chk: Check):
                 for y in reps[nb]:
                     ix = [slice(None)] * 3
                     ix[a], ix[b] = x, y
-                    slicer_case('S2:two-axes', tuple(shape), tuple(ix), FIXED_AFFS[(a + b) % 3])
+                    slicer_case('S2:two-axes', tuple(shape), tuple(ix), FIXED_AFFS[(a + b) % 3], proxy=True, dim=(1, 2, 0))
     # (S3) random tuples
     for k in range(chk.n(6000, 80000)):
         nd = rng.choice([3, 3, 4, 4, 5])
@@ -428,7 +462,112 @@ def run(chk: Check):
             j = rng.randrange(len(ix))
             if isinstance(ix[j], slice):
                 ix[j] = slice(ix[j].start, ix[j].stop, 0)
-        slicer_case('S3:random', shape, tuple(ix), rand_affine(rng), cls=rng.choice(['n1', 'n1', 'n2', 'ana']), sample=(k == 11))
+        slicer_case('S3:random', shape, tuple(ix), rand_affine(rng), cls=rng.choice(['n1', 'n1', 'n2', 'p1', 'ana']), sample=(k == 11),
+                    proxy=rng.random() < 0.4, dim=tuple(rng.choice([None, 0, 1, 2]) for _ in range(3)))
+
+    # (S4) realistic axis lengths: the read strategy of fileslice (full / contiguous / skip) depends on the strides
+    big = [(20, 17, 9), (33, 20, 13), (16, 16, 16, 3), (7, 40, 11)]
+    for k in range(chk.n(240, 3000)):
+        shape = big[k % len(big)]
+        ix = []
+        for i in range(3):
+            n = shape[i]
+            if rng.random() < 0.25:
+                ix.append(slice(None))
+            else:
+                vals = [None, None] + list(range(-n - 2, n + 3))
+                for _ in range(30):
+                    sl = slice(rng.choice(vals), rng.choice(vals), rng.choice([None, 1, 2, 3, 4, 5, -1, -2, -3, -3, -4, -5]))
+                    if len(range(n)[sl]) > 0:
+                        break
+                ix.append(sl)
+        if len(shape) > 3 and rng.random() < 0.6:
+            ix.append(rng.choice([0, -1, slice(None, None, -1), slice(1, None)]))
+        slicer_case('S4:large', shape, tuple(ix), FIXED_AFFS[k % 3], cls='n1', proxy=(k % 4 != 0), dim=(0, 1, 2))
+
+    # ============================================================== (Q) compositions of slicer and as_reoriented
+    def runs_along(S, J, a, k):
+        """input axis a runs along output axis k: S[a] is an injective function of J[k] alone"""
+        m = {}
+        for jv, sv in zip(J[k].tolist(), S[a].tolist()):
+            if m.setdefault(jv, sv) != sv:
+                return False
+        return len(set(m.values())) == len(m)
+
+    for k in range(chk.n(1500, 20000)):
+        nd = rng.choice([3, 3, 4, 5])
+        shape = tuple(rng.randint(2, 5) for _ in range(3)) + tuple(rng.randint(1, 3) for _ in range(nd - 3))
+        cls = rng.choice(['n1', 'n1', 'n2', 'p1', 'ana', 'spm'])
+        nifti = cls in ('n1', 'n2', 'p1')
+        A = rand_affine(rng)
+        dim = tuple(rng.sample([0, 1, 2], 3)) if rng.random() < 0.7 else tuple(rng.choice([None, 0, 1, 2]) for _ in range(3))
+        img, data = make_img(cls, shape, A, dim, proxy=(nifti and rng.random() < 0.3))
+        cur = img
+        toks = []
+        hyps = []
+        err = None
+        for _ in range(rng.choice([2, 2, 3, 3, 4])):
+            if rng.random() < 0.5:
+                o = ORNTS[rng.randrange(48)]
+                toks.append('R=' + ornt2s(o))
+                try:
+                    cur = cur.as_reoriented(o if rng.random() < 0.5 else o.astype(float))
+                except Exception as e:
+                    err = err_enum(e)
+                    break
+            else:
+                sh = cur.shape
+                ix = [rand_slice(rng, sh[i], 0.95) for i in range(3)]
+                for i in range(3, len(sh)):
+                    r = rng.random()
+                    if r < 0.2:
+                        ix.append(rng.randrange(-sh[i], sh[i]))
+                    elif r < 0.6:
+                        ix.append(rand_slice(rng, sh[i], 0.95))
+                if rng.random() < 0.04:
+                    ix[rng.randrange(3)] = 0
+                if rng.random() < 0.2:
+                    ix.insert(rng.randrange(3, len(ix) + 1), Ellipsis)
+                if rng.random() < 0.1:
+                    ix.append(None)
+                ix = tuple(ix)
+                toks.append('S=' + ix2s(ix))
+                try:
+                    nxt = cur.slicer[ix]
+                    hyps.append((lst(sh), ix2s(ix)))
+                    cur = nxt
+                except Exception as e:
+                    err = err_enum(e)
+                    break
+        case = {'op': 'sequence', 'cls': cls, 'shape': list(shape), 'affine': mat2s(A), 'dim_info': list(dim) if nifti else None,
+                'ops': ';'.join(toks), 'proxy': not isinstance(img.dataobj, np.ndarray)}
+        pred = None
+        if err is None:
+            out = np.asarray(cur.dataobj)
+            ndim_info = cur.header.get_dim_info() if nifti else ()
+            exp = f'ok shape={lst(cur.shape)} aff={affs(cur.affine)} dim={opts2s(ndim_info)} srcs={lst(out.ravel())}'
+            pred, S, J = world_check(cur, img.affine, img.shape)
+            if not pred and nifti and S is not None:
+                for lab, a, kk in zip(('freq', 'phase', 'slice'), img.header.get_dim_info(), ndim_info):
+                    if (a is None) != (kk is None):
+                        pred = f'dim_info {lab}: {a} -> {kk}'
+                    elif a is not None:
+                        cand = [x for x in range(3) if runs_along(S, J, a, x)]
+                        if len(set(S[a].tolist())) == 1:
+                            cand = [x for x in range(3) if out.shape[x] == 1]
+                        if kk not in cand:
+                            pred = f'dim_info {lab}: label of input axis {a} ended on output axis {kk}, which does not run along it'
+        else:
+            exp = err
+            chk.refusal('Q:' + err[4:])
+        chk.count(key=('Q', cls, shape, mat2s(A), ';'.join(toks)) if err is None else None,
+                  tag=f'Q:sequence:len{len(toks)}:' + ('ok' if err is None else 'refused'), sample=case if k == 3 else None)
+        cid = f'Q{k}'
+        add(cid, f'ops {int(nifti)} {lst(shape)} {mat2s(A)} {opts2s(dim) if nifti else "()"} {";".join(toks)}', exp, case, pred)
+        for hi, (hs, hx) in enumerate(hyps):
+            add(f'{cid}.h{hi}.h', f'hyp {hs} {hx}', 'ok 1', case, pred)
+        if pred:
+            prop_fail(case, pred, exp[:300])
 
     # ============================================================== (O) orientation consistency
     ident = np.array([[0, 1], [1, 1], [2, 1]])
@@ -479,6 +618,185 @@ def run(chk: Check):
         if not np.array_equal(no.apply_orientation(no.apply_orientation(darr, tab), tbc), no.apply_orientation(darr, tac)):
             prop_fail({'op': 'composition', 'a': ornt2s(a), 'b': ornt2s(b), 'c': ornt2s(c)},
                       'apply(apply(arr, T(a,b)), T(b,c)) != apply(arr, T(a,c))')
+
+    # ============================================================== (L) axis codes with custom labels
+    def lab_ids(labels):
+        ids = {}
+        for pr in labels:
+            for x in pr:
+                ids.setdefault(x, len(ids) + 1)
+        return ids, ','.join(f'{ids[a]}:{ids[b]}' for a, b in labels)
+
+    LABELS = [(('L', 'R'), ('P', 'A'), ('I', 'S')), (('left', 'right'), ('back', 'front'), ('down', 'up')),
+              (('B', 'F'), ('L', 'R'), ('D', 'U')), (('a', 'b'), ('c', 'd')), (('x', 'y'), ('x', 'z'), ('p', 'q')),
+              (('a', 'b'), ('c', 'd'), ('e', 'f'), ('g', 'h'))]
+    for li, labels in enumerate(LABELS):
+        ids, ls = lab_ids(labels)
+        rows_list = [o.astype(float) for o in ORNTS] if li < 3 else [o.astype(float) for o in ORNTS[::5]]
+        rows_list += [np.array([[1, -1], [np.nan, np.nan], [0, 1]]), np.array([[0, 1], [1, 2], [2, 1]]),
+                      np.array([[0, 1], [3, -1]]), np.array([[-1, 1], [0, -1]])]
+        for ri2, o in enumerate(rows_list):
+            try:
+                codes = no.ornt2axcodes(o, labels)
+                e1 = 'ok ' + opts2s([None if c is None else ids[c] for c in codes])
+            except Exception as e:
+                codes = None
+                e1 = err_enum(e)
+            add(f'L{li}.{ri2}.c', f'o2cl {ls} {ornt2s(o)}', e1)
+            chk.count(key=('L', li, ornt2s(o)), tag='L:labels:ornt2axcodes' + (':refused' if codes is None else ''))
+            if codes is not None:
+                try:
+                    back = no.axcodes2ornt(codes, labels)
+                    e2 = 'ok ' + ornt2s(back)
+                    if len(set(ids.values())) == 2 * len(labels) and not np.any(o[:, 0] < 0) and \
+                            not np.array_equal(back, o, equal_nan=True):
+                        prop_fail({'op': 'axcodes', 'ornt': ornt2s(o), 'labels': [list(x) for x in labels]},
+                                  f'axcodes2ornt(ornt2axcodes(o, labels), labels) = {back.tolist()} != o')
+                except Exception as e:
+                    e2 = err_enum(e)
+                add(f'L{li}.{ri2}.o', f'c2ol {ls} {opts2s([None if c is None else ids[c] for c in codes])}', e2)
+        # codes outside the label set / duplicated labels: refusals
+        for ci2, codes in enumerate([('zz', labels[0][0]), (labels[0][1], None, labels[-1][0]), ()]):
+            ids2 = dict(ids)
+            ids2.setdefault('zz', 99)
+            try:
+                e2 = 'ok ' + ornt2s(no.axcodes2ornt(codes, labels))
+            except Exception as e:
+                e2 = err_enum(e)
+            add(f'L{li}.x{ci2}', f'c2ol {ls} {opts2s([None if c is None else ids2[c] for c in codes])}', e2)
+            chk.count(tag='L:labels:axcodes2ornt-odd')
+
+    # ============================================================== (E) orientations of 1, 2 and 4 axes; error branches
+    def signed_perms(n):
+        return [np.array([[p[i], f[i]] for i in range(n)]) for p in itertools.permutations(range(n))
+                for f in itertools.product([1, -1], repeat=n)]
+    for n in (1, 2, 4):
+        SP = signed_perms(n)
+        sub = SP if n < 4 else [SP[i] for i in sorted(rng.sample(range(len(SP)), chk.n(40, 384)))]
+        for oi, o in enumerate(sub):
+            for shape in ([tuple(rng.randint(1, 4) for _ in range(n)), tuple(rng.randint(1, 3) for _ in range(n + 1))] +
+                          ([tuple(rng.randint(1, 3) for _ in range(n - 1))] if n > 1 else [])):
+                arr = np.arange(int(np.prod(shape))).reshape(shape)
+                try:
+                    t = no.apply_orientation(arr, o)
+                    e1 = f'ok shape={lst(t.shape)} srcs={lst(t.ravel())}'
+                except Exception as e:
+                    t = None
+                    e1 = err_enum(e)
+                    chk.refusal('E:apply_orientation:' + e1[4:])
+                add(f'E{n}.{oi}.{len(shape)}.a', f'applyo {lst(shape)} {ornt2s(o)}', e1)
+                chk.count(key=('E', n, ornt2s(o), shape) if t is not None else None, tag=f'E:apply_orientation:n={n}')
+                if t is not None and len(shape) >= n:
+                    M = no.inv_ornt_aff(o, shape)
+                    add(f'E{n}.{oi}.{len(shape)}.i', f'invaff {ornt2s(o)} {lst(shape)}', 'ok ' + affs(M))
+                    # property clause: the affine sends every output index to its source index
+                    J = np.indices(t.shape).reshape(t.ndim, -1)
+                    Ssrc = np.array(np.unravel_index(t.ravel(), shape))
+                    if not np.array_equal((M @ np.vstack([J[:n], np.ones((1, J.shape[1]))]))[:n], Ssrc[:n]) or \
+                            not np.array_equal(J[n:], Ssrc[n:]):
+                        prop_fail({'op': 'apply_orientation', 'ornt': ornt2s(o), 'shape': list(shape)},
+                                  'inv_ornt_aff does not map output indices of apply_orientation to their source indices')
+            b = sub[(oi * 7 + 3) % len(sub)]
+            t = no.ornt_transform(o, b)
+            add(f'E{n}.{oi}.t', f'otrans {ornt2s(o)} {ornt2s(b)}', 'ok ' + ornt2s(t))
+            chk.count(tag=f'E:ornt_transform:n={n}')
+            if not np.array_equal(no.ornt_transform(o, o), np.array([[i, 1] for i in range(n)])):
+                prop_fail({'op': 'ornt_transform', 'start': ornt2s(o), 'end': ornt2s(o)}, 'ornt_transform(o, o) is not the identity')
+    for bi, (a, b) in enumerate([([[0, 1], [1, 1]], [[0, 1], [1, 1], [2, 1]]), ([[0, 1], [1, 1], [2, 1]], [[0, 1], [1, -1], [3, 1]]),
+                                 ([[0, 1], [0, -1]], [[0, 1], [1, 1]]), ([[2, 1], [0, 1]], [[0, -1], [2, -1]])]):
+        try:
+            e1 = 'ok ' + ornt2s(no.ornt_transform(np.array(a), np.array(b)))
+        except Exception as e:
+            e1 = err_enum(e)
+            chk.refusal('E:ornt_transform:' + e1[4:])
+        add(f'Ex{bi}', f'otrans {ornt2s(a)} {ornt2s(b)}', e1)
+        chk.count(tag='E:ornt_transform:odd')
+    for shape in [(3,), (2, 3), (2, 1, 3), (2, 2, 2, 2)]:
+        arr = np.arange(int(np.prod(shape))).reshape(shape)
+        for ax in range(len(shape)):
+            with warnings.catch_warnings():
+                warnings.simplefilter('ignore')
+                try:
+                    e1 = 'ok ' + lst(no.flip_axis(arr, ax).ravel())
+                except Exception as e:      # flip_axis is deprecated; an expired deprecation raises
+                    e1 = None
+                    chk.refusal('E:flip_axis:' + type(e).__name__)
+            if e1:
+                add(f'Ef{len(shape)}.{ax}', f'flipax {lst(shape)} {ax}', e1)
+            chk.count(tag='E:flip_axis')
+
+    # ============================================================== (F) funcs: four_to_three, squeeze_image, concat_images, enforce_diag
+    from nibabel import funcs
+    for k in range(chk.n(60, 600)):
+        nd = rng.choice([3, 4, 4, 4, 5])
+        shape = tuple(rng.randint(1, 3) for _ in range(nd))
+        if rng.random() < 0.5:
+            shape = shape[:3] + tuple(rng.choice([1, 1, 2]) for _ in range(nd - 3))
+        A = rand_affine(rng)
+        cls = rng.choice(['n1', 'n2', 'ana'])
+        img, data = make_img(cls, shape, A, proxy=(cls != 'ana' and k % 3 == 0))
+        case = {'op': 'funcs', 'cls': cls, 'shape': list(shape), 'affine': mat2s(A)}
+
+        def desc(im):
+            return f'shape={lst(im.shape)} aff={affs(im.affine)} srcs={lst(np.asarray(im.dataobj).ravel())}'
+        pred = None
+        try:
+            parts = funcs.four_to_three(img)
+            e1 = 'ok ' + ' ; '.join(desc(x) for x in parts)
+            for i, x in enumerate(parts):
+                if not np.array_equal(np.asarray(x.dataobj), data[..., i]) or not np.array_equal(x.affine, img.affine):
+                    pred = 'four_to_three: volume data or affine differ from the 4-D image'
+            back = funcs.concat_images(parts)
+            e3 = 'ok ' + desc(back)
+            if not np.array_equal(np.asarray(back.dataobj), data) or not np.array_equal(back.affine, img.affine):
+                pred = pred or 'concat_images(four_to_three(img)) differs from img'
+        except ValueError as e:
+            e1 = e3 = err_enum(e)
+            chk.refusal('F:four_to_three:' + ('ndim!=4' if nd != 4 else 'other'))
+            if nd == 4:
+                pred = f'four_to_three refused a 4-D image: {e!r}'
+        add(f'F{k}.4', f'f43 {lst(shape)} {mat2s(A)}', e1, case, pred)
+        add(f'F{k}.c', f'concat43 {lst(shape)} {mat2s(A)}', e3, case, pred)
+        sq = funcs.squeeze_image(img)
+        add(f'F{k}.s', f'squeeze {lst(shape)} {mat2s(A)}', 'ok ' + desc(sq), case, pred)
+        if not np.array_equal(np.asarray(sq.dataobj).ravel(), data.ravel()) or not np.array_equal(sq.affine, img.affine) \
+                or sq.shape[:3] != img.shape[:3]:
+            pred = pred or 'squeeze_image changed voxel values, the spatial shape or the affine'
+        chk.count(key=('F', cls, shape, mat2s(A)), tag=f'F:funcs:rank{nd}')
+        if pred:
+            prop_fail(case, pred)
+    # enforce_diag: refusal exactly when the reoriented affine is not diagonal
+    for k in range(chk.n(96, 960)):
+        o = ORNTS[k % 48]
+        R0 = np.zeros((3, 3))
+        for r in range(3):
+            R0[int(o[r, 0]), r] = o[r, 1]
+        A = np.eye(4)
+        A[:3, :3] = R0 @ np.diag([rng.randint(2, 6) for _ in range(3)])
+        sheared = k % 2 == 1
+        if sheared:
+            i, j = rng.sample(range(3), 2)
+            A[i, j] += rng.choice([-1, 1]) if A[i, j] == 0 else 0
+        A[:3, 3] = [rng.randint(-9, 9) for _ in range(3)]
+        shape = tuple(rng.randint(1, 4) for _ in range(3))
+        img, data = make_img('n1', shape, A)
+        got = no.io_orientation(A)
+        diag_after = funcs._aff_is_diag(A @ no.inv_ornt_aff(got, shape))
+        case = {'op': 'enforce_diag', 'shape': list(shape), 'affine': mat2s(A)}
+        try:
+            c1 = as_closest_canonical(img, enforce_diag=True)
+            e1 = f'ok shape={lst(c1.shape)} aff={affs(c1.affine)}'
+            pred = None if diag_after else 'enforce_diag=True returned an image whose affine is not diagonal'
+            if not pred and c1 is not img:
+                pred = reorient_predicate(img, data, c1, got, False)
+        except no.OrientationError as e:
+            e1 = 'err orient'
+            chk.refusal('F:enforce_diag:not-diagonal')
+            pred = 'enforce_diag=True refused although the canonical affine is diagonal' if diag_after else None
+        add(f'D{k}', f'ediag {lst(shape)} {ornt2s(got)} {mat2s(A)}', e1, case, pred)
+        chk.count(key=('D', mat2s(A), shape), tag='F:enforce_diag:' + ('sheared' if sheared else 'diagonal'))
+        if pred:
+            prop_fail(case, pred)
 
     # ============================================================== (C) io_orientation / canonical
     ATOL = Fraction(1e-8)
@@ -531,7 +849,7 @@ def run(chk: Check):
         got = no.io_orientation(A)
         rs, at = scaled(R)
         add(f'C{ci}.l', f'ioloop {at} {rs} {p}', 'ok ' + ornt2s(got), case)
-        img, data = make_img('n1', shape, A, tuple(rng.sample([0, 1, 2], 3)))
+        img, data = make_img('n1', shape, A, tuple(rng.sample([0, 1, 2], 3)), proxy=(exact and ci % 3 == 0))
         try:
             c1 = as_closest_canonical(img)
             c2 = as_closest_canonical(c1)
@@ -623,6 +941,26 @@ def run(chk: Check):
         M = np.array([[rng.choice([0, 0, 1, -1, 2, -3, 0.5, rng.uniform(-2, 2)]) for _ in range(p)] for _ in range(q)], float)
         if rng.random() < 0.3:
             M[:, rng.randrange(p)] = 0
+        if k % 3 == 0 and q == 3 and p == 3:
+            # near ties: a 45-degree rotation about one axis (two equal dominant components up to rounding) composed
+            # with a signed permutation, perturbed by eps in {0, 1e-16 .. 1e-6}; anisotropic zooms
+            o = ORNTS[rng.randrange(48)]
+            P0 = np.zeros((3, 3))
+            for r in range(3):
+                P0[int(o[r, 0]), r] = o[r, 1]
+            th = np.pi / 4 + rng.choice([0, 0, 1e-16, -1e-16, 1e-12, -1e-12, 1e-9, -1e-9, 1e-6, -1e-6])
+            ax = rng.randrange(3)
+            i, j = [x for x in range(3) if x != ax]
+            Rt = np.eye(3)
+            Rt[i, i] = Rt[j, j] = np.cos(th)
+            Rt[i, j], Rt[j, i] = -np.sin(th), np.sin(th)
+            if rng.random() < 0.4:      # second 45-degree turn: three-way near ties
+                Rt2 = np.eye(3)
+                Rt2[ax, ax] = Rt2[i, i] = np.cos(np.pi / 4)
+                Rt2[ax, i], Rt2[i, ax] = -np.sin(np.pi / 4), np.sin(np.pi / 4)
+                Rt = Rt @ Rt2
+            M = P0 @ Rt @ np.diag([rng.choice([0.5, 1, 2, 3]) for _ in range(3)])
+            chk.tagc('C:io_orientation:near-tie')
         A = np.zeros((q + 1, p + 1))
         A[:q, :p] = M
         A[q, p] = 1
@@ -634,12 +972,40 @@ def run(chk: Check):
             continue
         rs, at = scaled(R)
         add(f'G{k}', f'ioloop {at} {rs} {pp}', 'ok ' + ornt2s(got), {'op': 'io_orientation', 'affine': A.tolist()})
+        if q <= 3:
+            try:
+                add(f'G{k}.c', f'o2c {ornt2s(got)}', 'ok ' + opts2s([None if c is None else ord(c) for c in no.aff2axcodes(A)]))
+            except Exception as e:
+                add(f'G{k}.c', f'o2c {ornt2s(got)}', err_enum(e))
         chk.count(key=('G', repr(A.tolist())), tag=f'C:io_orientation:{q}x{p}')
         # property clause: distinct output axes, every kept axis within range
         kept = [int(r[0]) for r in got if not np.isnan(r[0])]
         if len(set(kept)) != len(kept) or any(not (0 <= x < q) for x in kept):
             prop_fail({'op': 'io_orientation', 'affine': A.tolist()}, f'io_orientation rows {got.tolist()} reuse or exceed output axes')
     chk.extra['idempotence_hypothesis_cases'] = nhyp
+
+    # ============================================================== out-of-statement observations (recorded, never a violation)
+    # C05 names the freq/phase/slice LABELS; the slice-timing fields that hang on the slice axis are not named.
+    obs = {}
+    try:
+        d4 = np.arange(24, dtype=np.int16).reshape(2, 3, 4)
+        im = nib.Nifti1Image(d4, np.diag([2., 3, 4, 1]))
+        im.header.set_dim_info(0, 1, 2)
+        im.header.set_slice_duration(0.1)
+        im.header.set_slice_times([0, 0.1, 0.2, 0.3])
+        fl = im.as_reoriented(np.array([[0, 1], [1, 1], [2, -1]]))
+        t0, t1 = im.header.get_slice_times(), fl.header.get_slice_times()
+        obs['slice_times_after_flipping_the_slice_axis'] = (
+            'unchanged (slice k of the flipped image is slice n-1-k of the original, so the times are mirrored onto the '
+            'wrong slices; slice_code/slice_start/slice_end are copied)' if tuple(t1) == tuple(t0) else 'mirrored')
+        sl = im.slicer[:, :, 1:3]
+        obs['slice_start_end_after_cropping_the_slice_axis'] = (
+            f"copied ({int(sl.header['slice_start'])}, {int(sl.header['slice_end'])}) for an axis now of length {sl.shape[2]}"
+            if (int(sl.header['slice_start']), int(sl.header['slice_end'])) == (int(im.header['slice_start']), int(im.header['slice_end']))
+            else 'adjusted')
+    except Exception as e:
+        obs['error'] = repr(e)[:200]
+    chk.extra['out_of_statement_observations'] = obs
 
     # ============================================================== model run + comparison
     mod = run_model_parallel(PROP, lines, jobs=8)
@@ -735,7 +1101,7 @@ def replay(chk, obj):
     if isinstance(c, dict) and c.get('op') == 'slicer':
         shape = tuple(c['shape'])
         A = np.array([[float(x) for x in r.split(',')] for r in c['affine'].split('|')])
-        img, data = make_img(c['cls'], shape, A)
+        img, data = make_img(c['cls'], shape, A, tuple(c['dim_info']) if c.get('dim_info') else None, bool(c.get('proxy')))
         ix = s2ix(c['ix'])
         try:
             new = img.slicer[ix]
@@ -747,6 +1113,58 @@ def replay(chk, obj):
         if not bad and not np.array_equal(np.asarray(new.dataobj), data[ix]):
             bad = 'data differ from data[index]'
         print(bad or 'every voxel keeps value and world position')
+        print('property fails on this case' if bad else 'property holds on this case')
+        return 1 if bad else 0
+    if isinstance(c, dict) and c.get('op') in ('funcs', 'enforce_diag'):
+        from nibabel import funcs
+        from nibabel import orientations as no
+        shape = tuple(c['shape'])
+        A = np.array([[float(x) for x in r.split(',')] for r in c['affine'].split('|')])
+        img, data = make_img(c.get('cls', 'n1'), shape, A)
+        bad = None
+        if c['op'] == 'funcs':
+            if len(shape) == 4:
+                try:
+                    parts = funcs.four_to_three(img)
+                    if any(not np.array_equal(np.asarray(x.dataobj), data[..., i]) or not np.array_equal(x.affine, img.affine)
+                           for i, x in enumerate(parts)):
+                        bad = 'four_to_three: volume data or affine differ'
+                    back = funcs.concat_images(parts)
+                    if not np.array_equal(np.asarray(back.dataobj), data) or not np.array_equal(back.affine, img.affine):
+                        bad = bad or 'concat_images(four_to_three(img)) differs from img'
+                except Exception as e:
+                    bad = f'raised {e!r}'
+            sq = funcs.squeeze_image(img)
+            if not np.array_equal(np.asarray(sq.dataobj).ravel(), data.ravel()) or not np.array_equal(sq.affine, img.affine):
+                bad = bad or 'squeeze_image changed values or affine'
+        else:
+            got = no.io_orientation(A)
+            diag_after = funcs._aff_is_diag(A @ no.inv_ornt_aff(got, shape))
+            try:
+                funcs.as_closest_canonical(img, enforce_diag=True)
+                bad = None if diag_after else 'answered with a non-diagonal affine'
+            except no.OrientationError:
+                bad = 'refused a diagonal canonical affine' if diag_after else None
+        print(bad or 'consistent')
+        print('property fails on this case' if bad else 'property holds on this case')
+        return 1 if bad else 0
+    if isinstance(c, dict) and c.get('op') == 'sequence':
+        shape = tuple(c['shape'])
+        A = np.array([[float(x) for x in r.split(',')] for r in c['affine'].split('|')])
+        img, data = make_img(c['cls'], shape, A, tuple(c['dim_info']) if c.get('dim_info') else None, bool(c.get('proxy')))
+        cur = img
+        try:
+            for t in c['ops'].split(';'):
+                if t[0] == 'R':
+                    cur = cur.as_reoriented(np.array([[int(x) for x in r.split(':')] for r in t[2:].split(',')]))
+                else:
+                    cur = cur.slicer[s2ix(t[2:])]
+        except Exception as e:
+            print('raised', repr(e)[:200], '(a refusal)')
+            print('property holds on this case')
+            return 0
+        bad, _, _ = world_check(cur, img.affine, img.shape)
+        print(bad or 'every voxel keeps value and world position through the sequence')
         print('property fails on this case' if bad else 'property holds on this case')
         return 1 if bad else 0
     if isinstance(c, dict) and c.get('op') == 'as_reoriented':
